@@ -719,8 +719,9 @@ func (pc *PartitionContext) removeNodeAllocations(node *objects.Node) ([]*object
 		// Retrieve the queue early before a possible race.
 		queue := app.GetQueue()
 		// check for an inflight replacement.
-		if alloc.HasRelease() {
-			release := alloc.GetRelease()
+		// read the link once: the scheduling cycle and the allocation event handler run next to the node removal and
+		// can reverse or confirm the replacement, which clears the link
+		if release := alloc.GetRelease(); release != nil {
 			// allocation to update the ask on: this needs to happen on the real alloc never the placeholder
 			askAlloc := alloc
 			// placeholder gets handled differently from normal
